@@ -185,10 +185,24 @@ func main() {
 		goarch   = flag.String("goarch", "", "override GOARCH")
 		expect   = flag.String("expect", "", "self-test: comma list of rule[:keysubstr] that must be violated; exit 0 iff all are")
 		listFn   = flag.Bool("list-funcs", false, "print the function vocabulary of the tree (for refs/known_funcs.txt)")
+		listVoc  = flag.Bool("list-vocab", false, "print the identifier vocabulary of the tree (for refs/vocabulary.txt)")
 	)
 	flag.Parse()
 	start := time.Now()
 	verifDir = *verif
+	if *listVoc {
+		noRenameNormalisation = true
+		L, err := Load(*repo, *goos, *goarch)
+		if err != nil {
+			fmt.Fprintln(os.Stderr, "load:", err)
+			os.Exit(2)
+		}
+		vs, _ := vocabOf(L.Pkgs)
+		for _, v := range vs {
+			fmt.Println(v.line())
+		}
+		return
+	}
 	if *listFn {
 		L, err := Load(*repo, *goos, *goarch)
 		if err != nil {
@@ -269,6 +283,10 @@ func main() {
 			os.Exit(2)
 		}
 		c := &Ctx{Repo: *repo, Tier: *tier, Cfg: L.Cfg, L: L, results: map[string][]Obl{}}
+		if len(L.Renames) > 0 {
+			allRenames = L.Renames
+			fmt.Printf("NOTE renamed identifiers analysed under their vocabulary names: %s\n", strings.Join(L.Renames, "; "))
+		}
 		for _, id := range ids {
 			p := properties[id]
 			pr := res[id]
@@ -397,6 +415,7 @@ func main() {
 					"rule":                "one obligation per (rule, construct) found in the type-checked program; all are distinct by key",
 					"checker_cmd":         strings.Join(os.Args, " "),
 					"exhaustive":          true,
+					"normalised_renames":  allRenames,
 				},
 				Assumptions: p.Assumptions,
 				WallS:       time.Since(start).Seconds(),
@@ -413,6 +432,10 @@ func main() {
 	}
 	os.Exit(exit)
 }
+
+// allRenames: identifiers that differ from the pinned vocabulary only by
+// name and were analysed under the vocabulary name (vocab.go).
+var allRenames = []string{}
 
 func ruleEngineMissing(p *Property, rule string) bool {
 	for _, sel := range p.Sel {
